@@ -162,6 +162,10 @@ def hook_reinforce(model, mon, kind, B_hint=None):
 
     scale = mon.case.get("reward_scale")
     hist = []  # every advantage value the scaler has been shown so far (the documented running statistics are over all of them)
+    cond = {"max": 1.0}
+
+    def wtol_scaled():
+        return 2e-4 + 4 * 1.2e-7 * cond["max"]
 
     def scale_adv(a):
         """documented transform of the advantage (reward_scale): None -> as is; int -> / int; 'norm' -> (a - running mean) / running
@@ -175,6 +179,11 @@ def hook_reinforce(model, mon, kind, B_hint=None):
         mu, sd = h.mean(), (h.std(unbiased=True) if h.numel() > 1 else torch.tensor(float("nan"), dtype=torch.float64))
         eps = torch.finfo(torch.float32).eps
         mon.ctx.count("c16_scaled_advantage_steps")
+        # float32 conditioning of the running statistics (the library keeps them in the advantages' dtype): the first batches are
+        # accumulated from mean 0, so M2 is a cancelling sum whose relative error is about eps32 * (1 + (mean / std)^2). The
+        # comparison tolerance widens by that much and no more (a spread of 0.05 around -4.2 gave 4.4e-4 in thorough seed 6)
+        if h.numel() > 1 and float(sd) > 0:
+            cond["max"] = max(cond["max"], 1.0 + float((mu / sd) ** 2))
         if scale == "norm":
             return ((a.double() - mu) / (sd + eps)).float()
         return (a.double() / (sd + eps)).float()
@@ -310,7 +319,7 @@ def hook_reinforce(model, mon, kind, B_hint=None):
                     ctx.count("c16_shared_groups_checked", Bn)
             # the library scales the [B, S]-shaped advantages: same values, the running statistics do not depend on the order
             ref = -(scale_adv(adv.t().contiguous()).t().reshape(-1) * flatLL).mean() if scale is not None else -(adv.reshape(-1) * flatLL).mean()
-            mon.compare(out["loss"], ref, ps, ll=flatLL, wtol=2e-4 if isinstance(scale, str) else 1e-5)
+            mon.compare(out["loss"], ref, ps, ll=flatLL, wtol=wtol_scaled() if isinstance(scale, str) else 1e-5)
             ctx.nontrivial_case(dict(c=mon.case, step=mon.step))
             return out
         else:
@@ -319,7 +328,7 @@ def hook_reinforce(model, mon, kind, B_hint=None):
         ref = -(adv * LL).mean() + bl_loss_ref
         # running statistics: the library accumulates mean / M2 in float32 (relative error ~1e-5 on the standard deviation after a
         # few batches, seen at 2e-5 on the thorough tier), the monitor in float64: scaled advantages are compared at 2e-4
-        mon.compare(out["loss"], ref, ps, ll=policy_out["log_likelihood"], wtol=2e-4 if isinstance(scale, str) else 1e-5)
+        mon.compare(out["loss"], ref, ps, ll=policy_out["log_likelihood"], wtol=wtol_scaled() if isinstance(scale, str) else 1e-5)
         ctx.nontrivial_case(dict(c=mon.case, step=mon.step))
         return out
 
